@@ -6,8 +6,8 @@ IFACE = "liesel/goose/interface.py"
 STRONG = {"hier": ["tau", "mu", "y"], "diamond": ["a", "y"], "flat": ["b", "c", "y"], "direct": ["b", "c", "y"], "weakdist": ["a", "b"], "weakdist_deep": ["a", "b"], "transformed": ["p", "x_transformed"]}
 
 
-def simple_iface_unit(cls):
-    @unit(f"C03.{cls}", "C03", [f"{IFACE}::{cls}.extract_position", f"{IFACE}::{cls}.update_state", f"{IFACE}::{cls}.log_prob"],
+def simple_iface_unit(cls, uid=None, prop="C03"):
+    @unit(uid or f"C03.{cls}", prop, [f"{IFACE}::{cls}.extract_position", f"{IFACE}::{cls}.update_state", f"{IFACE}::{cls}.log_prob"],
           assumptions=["A-PY: copy.copy is a shallow copy, NamedTuple._replace returns a new tuple"])
     def u(ip, cls=cls):
         """put/get: extracting the updated keys from update_state(p, s) gives p back and every other field equals s's; the input
@@ -40,6 +40,9 @@ def simple_iface_unit(cls):
         c.oblige("other_fields_kept", all(read(new, k).eq(vals[k]) for k in vals if k not in pos))
         got0 = ip.call(method(ip, iface, "extract_position"), [["b", "a"], state], {})
         c.oblige("extract_reads_state", list(got0) == ["b", "a"] and got0["b"].eq(vals["b"]) and got0["a"].eq(vals["a"]))
+        # a position is a PLAIN dict: JAX flattens plain dicts in sorted-key order - the order in which the tuning code lays out the inverse
+        # mass matrix and ravel_pytree lays out the flat coordinates; a dict subclass (OrderedDict) flattens in insertion order instead
+        c.oblige("position_is_a_plain_dict", type(got0) is dict and type(got) is dict)
         r = ip.call(method(ip, iface, "log_prob"), [state], {})
         c.oblige("log_prob_is_user_function_of_state", ip.to_U(r) == ip.uf("user_log_prob", ip.to_U(state)))
         if cls == "DataclassInterface":
@@ -130,6 +133,7 @@ def liesel_unit(shape, rel=IFACE, cls="LieselInterface", auto_update=True, uid=N
         c.oblige("user_model_untouched", observe(model) == user_snapshot)
         got = ip.call(method(ip, iface, "extract_position"), [list(p2), r2], {})
         c.oblige("put_get", list(got) == list(p2) and all(ip.to_U(got[k]).eq(p2[k]) for k in p2))
+        c.oblige("position_is_a_plain_dict", type(got) is dict)  # flattened by JAX in sorted-key order (see C03.DictInterface)
         lp = ip.call(method(ip, iface, "log_prob"), [r2], {})
         c.oblige("log_prob_is_model_log_prob", to_sort(lp, Real) == to_sort(ip.getattr(ref, "log_prob"), Real))
     return u
